@@ -149,18 +149,23 @@ class C18(Check):
         "failures at/after output-file creation are the recorded known finding and are excluded while it is listed as known",
         "only the output path is judged here; siblings are C19's business",
     ]
-    quick_cases = 640
+    quick_cases = 480
     thorough_cases = 12000
 
     # --------------------------------------------------------------------------------------------
     def strategy(self, tier):
+        # While the late-failure finding is listed as known, draw only the points / causes that are not
+        # wholly inside its domain (the domain itself is still guarded by excluded_by_construction).
+        late_known = all(f"{SIG_LATE}:{k}" in self._known_listed() for k in ("error", "panic"))
+        points = EARLY_POINTS + MID_POINTS + ([] if late_known else LATE_POINTS)
+        naturals = [n for n in NATURAL if not (late_known and n == "overflow")] + ["nocreate"]
         inject = st.fixed_dictionaries({
             "cause": st.just("inject"),
-            "point": st.sampled_from(EARLY_POINTS + MID_POINTS + LATE_POINTS),
+            "point": st.sampled_from(points),
             "kind": st.sampled_from(["error", "panic"]),
         })
         natural = st.fixed_dictionaries({
-            "cause": st.sampled_from(NATURAL + ["nocreate"]),
+            "cause": st.sampled_from(naturals),
             "point": st.just(""), "kind": st.just("error"),
         })
         rest = st.fixed_dictionaries({
